@@ -299,7 +299,7 @@ func init() {
 			sizes = append(sizes, fmt.Sprintf("%s:%d", n, len(dims[n])))
 		}
 		rep.Rule = "manifest dimensions (" + strings.Join(sizes, " x ") + "): full product of the core dimensions replicas x podManagementPolicy x updateStrategy x annotations, times every choice of at most 1 (thorough: 2) of the remaining dimensions away from its first value, plus spec-less objects; each admitted (pruned, defaulted, validated) by a mini structural-schema interpreter reading /repo/manifests/crd.v1.yaml version " + ver +
-			", decoded into the typed object, with and without client-side SetObjectDefaults; each object is driven through a journey of real reconciles (create, steady, template change, failed pod, scale-in at slot 0, deletion; kubelet steps in between) and reconciled against 3 hand-made pod populations; every reconcile must return without panicking. distinct = distinct start states."
+			", decoded into the typed object, with and without client-side SetObjectDefaults; each object is driven through a journey of real reconciles (create, steady, template change, failed pod, scale-in at slot 0, deletion; kubelet steps in between) and reconciled against 3 hand-made pod populations; every reconcile must return without panicking; the same oracle runs over the ownership grid of C10/C13 (own / orphan / foreign pods and revisions, deleting and stale sets). distinct = distinct start states."
 		rep.Assumptions = []string{"the mini interpreter (type, required, properties, items, minimum, default, x-kubernetes-preserve-unknown-fields) stands in for the apiextensions validator, which cannot be built offline", "only type-correct values are generated for fields the typed client decodes", "replicas / slots near MaxInt32 are excluded (the reconciler allocates a slice of that length)"}
 		deadline := explore.Deadline(100*time.Second, 15*time.Minute)
 		ch := make(chan c15Case, 64)
@@ -353,6 +353,40 @@ func init() {
 		})
 		close(ch)
 		wg.Wait()
+		// "any population of pods and revisions": the ownership grid of C10/C13 (own / orphan / foreign revisions and
+		// pods, stale and deleting sets) with the no-panic oracle
+		{
+			och := make(chan ownCase, 256)
+			var owg sync.WaitGroup
+			var n int64
+			for i := 0; i < explore.Workers(); i++ {
+				owg.Add(1)
+				go func() {
+					defer owg.Done()
+					w := world.New()
+					for c := range och {
+						runOwnCase(rep, w, c, monitorOf("C15"), false)
+					}
+				}()
+			}
+			apis, pols := []string{"same", "cache-deleting"}, []string{"Parallel"}
+			if thorough {
+				apis, pols = []string{"same", "cache-deleting", "api-deleting", "other-uid"}, []string{"Parallel", "OrderedReady"}
+			}
+			ownGrid(apis, pols, false, 1, thorough, func(c ownCase) bool {
+				if time.Now().After(deadline) {
+					rep.Exhaustive, rep.Cap = false, "deadline in the ownership grid"
+					return false
+				}
+				n++
+				och <- c
+				return true
+			})
+			close(och)
+			owg.Wait()
+			rep.AddStates(n, n)
+			rep.Extra["ownership_grid_cases"] = n
+		}
 		rep.Extra["objects_admitted"] = admitted
 		rep.Extra["manifests_rejected_by_schema"] = rejected
 		rep.Extra["undecodable"] = undecodable
